@@ -300,9 +300,6 @@ class Decoder(Coder):
         min_value = bit_reader.read_bytes(nbytes_min_value)
         nbits_diff = bit_reader.read_uint(NBITS_FOR_NBITS_DIFF)
 
-        if min_value in (b'\0' * nbytes_min_value or b'\xff' * nbytes_min_value):
-            min_value = b''
-
         # special cases: all missing or all equals
         if min_value is None or nbits_diff == 0:
             if nbits_diff != 0:
@@ -311,6 +308,9 @@ class Decoder(Coder):
             for decoded_values in state.decoded_values_all_subsets:
                 decoded_values.append(min_value)
         else:
+            # A minimum of all zero octets is only a place holder in front of the increments
+            if min_value in (b'\0' * nbytes_min_value or b'\xff' * nbytes_min_value):
+                min_value = b''
             for decoded_values in state.decoded_values_all_subsets:
                 diff_value = bit_reader.read_bytes(nbits_diff)
                 decoded_values.append(min_value + diff_value)
